@@ -210,6 +210,35 @@ def _long_set_case(rng):
     return {"dm": dm, "runs": runs}
 
 
+# ---- set filters on integer-typed criteria with members that are not whole numbers
+
+
+def _int_set_case(rng):
+    """FilterIn / FilterNotIn on an ALL-INTEGER matrix (int64 storage) whose condition sets hold, next to whole numbers, members that are
+    not whole numbers and whose truncation / rounding IS a value of the criterion (5.5, 4.9999, 5.0000001 when 5 is present): such a
+    member matches no alternative; a membership test carried out after converting the set to the column's dtype would match"""
+    dm = G.dm_case(rng, family="dyadic", positive=rng.random() < 0.7, ties=0.5, dups=0.1, max_m=10, max_n=5, min_m=3)
+    dm["matrix"] = [[float(rng.randint(-3, 9)) for _ in row] for row in dm["matrix"]]
+    dm["int_matrix"] = True
+    crits = dm["criteria"]
+    keys = rng.sample(crits, min(len(crits), rng.choice([1, 1, 2])))
+    conds = []
+    for c in keys:
+        col = [row[crits.index(c)] for row in dm["matrix"]]
+        present = sorted(set(col))
+        vals = []
+        for v in rng.sample(present, min(len(present), rng.randint(1, 3))):  # near a present value, never equal to one
+            vals.append(v + rng.choice([0.5, -0.5, 0.25, 0.875, -0.125, 2.0 ** -20, -(2.0 ** -20)]))
+        for v in rng.sample(present, rng.randint(0, min(2, len(present)))):  # and some genuine members, as int or float
+            vals.append(int(v) if rng.random() < 0.5 else v)
+        vals += [rng.choice([11.0, 12.5, -7.25, 100]) for _ in range(rng.randint(0, 2))]
+        rng.shuffle(vals)
+        conds.append([c, vals])
+    cls = rng.choice(SETS)
+    runs = [{"cls": cls, "conds": conds, "ignore": rng.random() < 0.3}, {"cls": "NotIn" if cls == "In" else "In", "conds": conds, "ignore": False}]
+    return {"dm": dm, "runs": runs}
+
+
 # ---- near ties (FilterNonDominated): values that differ by a tiny, non-zero amount
 
 
@@ -523,6 +552,8 @@ def gen(ctx):
         cases.append(_colrel_case(rng))
     for _ in range(ctx.n(150, 600)):
         cases.append(_bigint_nd_case(rng))
+    for _ in range(ctx.n(120, 600)):
+        cases.append(_int_set_case(rng))
     if ctx.thorough:
         cases.extend(_exhaustive())
     return cases
